@@ -41,12 +41,19 @@ class SDVRPAdapter(RoutingAdapter):
     reward_td = "reset"
     shard = 60
     tiny = 3
+    # keys of the step output compared with the row model after every step in C02 / C04 (Harness/HSDVRP.v book_obs)
+    book_keys = (("current_node", "int"), ("used_capacity", "f"), ("demand_with_depot", "fvec"))
+    book_fn = "check_book"
+    book_type = "sd_book"
+    _defer_batches = True        # one batched-checker stage for the corrupted and the hand-built lists together (extra_c06)
 
     def variants(self, tier):
         if tier == "quick":
-            return [{"num_loc": 3}, {"num_loc": 5, "capacity": 8.0}, {"num_loc": 8, "capacity": 12.0}]
-        return [{"num_loc": 3}, {"num_loc": 4, "capacity": 6.0}, {"num_loc": 6, "capacity": 10.0}, {"num_loc": 10},
-                {"num_loc": 20}]
+            # num_loc 1 and 2 (degenerate but legal sizes) come last: the C05 enumeration budget goes to the first tiny
+            # instances met, which should stay the n = 3 ones
+            return [{"num_loc": 3}, {"num_loc": 5, "capacity": 8.0}, {"num_loc": 8, "capacity": 12.0}, {"num_loc": 1}, {"num_loc": 2, "capacity": 4.0}]
+        return [{"num_loc": 3}, {"num_loc": 4, "capacity": 6.0}, {"num_loc": 6, "capacity": 10.0}, {"num_loc": 10}, {"num_loc": 20},
+                {"num_loc": 1}, {"num_loc": 2, "capacity": 4.0}]
 
     def variant_tag(self, variant):
         return "default"          # the generator's capacity only rescales the demands: instance data, not a mode
